@@ -4,7 +4,7 @@ from .. import core, expr_check
 TIERS = {
     # tier: (n_programs, per_tu, depth, leaves, budget)
     "quick": (36, 3, 3, 5, 120),
-    "thorough": (120, 4, 4, 6, 400),
+    "thorough": (80, 4, 4, 6, 300),
 }
 
 ASSUME = [
